@@ -97,22 +97,28 @@ def _first(el, tag):
     return None
 
 
-def type_spelling(pos: int, sidx: int, depth: int, qbase: int, qptr: int):
+def type_spelling(pos: int, sidx: int, depth: int, qbase: int, qptr: int, arr: int = 0):
     """A value of C type  <quals> SPELLINGS[sidx] <'*' x depth, last pointer qualified by qptr>
-    as parameter (pos 0), return value (1) or record field (2), no annotations."""
+    as parameter (pos 0), return value (1) or record field (2), no annotations.
+    arr: 0 plain declarator, 1 `T name[]`, 2 `T name[4]` (parameters and fields only)."""
+    arr = sym.pick(arr, 0, 2)
     pos = sym.pick(pos, 0, 2)
     sidx = sym.pick(sidx, 0, N_SPELL - 1)
     depth = sym.pick(depth, 0, 2)
     qbase = sym.pick(qbase, 0, 3)
     qptr = sym.pick(qptr, 0, 3)
     with sym.untraced():
-        return _type_spelling(pos, sidx, depth, qbase, qptr)
+        return _type_spelling(pos, sidx, depth, qbase, qptr, arr)
 
 
 _Q = (0, CONST, VOLATILE, CONST | VOLATILE)
 
 
-def _type_spelling(pos, sidx, depth, qbase, qptr):
+def _type_spelling(pos, sidx, depth, qbase, qptr, arr=0):
+    if arr and pos == 1:
+        return True     # C has no array return types
+    if arr and pos == 2 and depth == 2:
+        return True
     sp = SPELLINGS[sidx]
     qb = _Q[qbase]
     qp = _Q[qptr] if depth > 0 else 0
@@ -122,6 +128,14 @@ def _type_spelling(pos, sidx, depth, qbase, qptr):
         this_q = qp if i == depth - 1 else 0
         ct = t_ptr(ct, this_q)
         qptrs.append(this_q)
+    elem_depth = depth
+    if arr:
+        from vlib.gistub import t_array
+        ct = t_array(ct, None if arr == 1 else 4)
+        if pos == 0:
+            # a parameter declared as an array is a pointer to the element type
+            depth += 1
+            qptrs.append(0)
     decls = pipe.fixed_decls()
     if pos == 0:
         decls.append(s_function('foo_frob', t_void(), [s_param('subj', ct)]))
@@ -149,6 +163,15 @@ def _type_spelling(pos, sidx, depth, qbase, qptr):
     t = _first(v, 'type') or _first(v, 'array')
     if t is None:
         return 'no type element'
+    if arr and pos == 2:
+        # field declared as an array: an <array> of the element type, with its size
+        if t.tag != 'array':
+            return 'array field emitted as %r' % (t.attrs,)
+        if arr == 2 and t.get('fixed-size') != '4':
+            return 'array field fixed-size %r' % t.get('fixed-size')
+        t = _first(t, 'type') or _first(t, 'array')
+        if t is None:
+            return 'array field without element type'
     # ---- c:type keeps the original spelling -------------------------------------
     want_levels = _expected_levels(sp, depth, qb, qptrs)
     got = t.get('c:type')
